@@ -27,10 +27,12 @@ import (
 	"path/filepath"
 	"reflect"
 	"runtime"
+	"runtime/debug"
 	"sort"
 	"strconv"
 	"strings"
 	"sync"
+	"time"
 
 	"github.com/XiaoMi/Gaea/models"
 	"github.com/XiaoMi/Gaea/proxy/server"
@@ -454,7 +456,9 @@ func (x *ctx) pipeline(c Case, name string, fields []string, key string, keyVali
 	mem := fakeetcd.New(coordPrefix)
 	store := models.NewStore(mem)
 	// another, ordinary namespace already lives in the coordinator
-	mem.Put(store.NamespacePath("other"), otherBlob(key))
+	if c.Part == "name" {
+		mem.Put(store.NamespacePath("other"), otherBlob(key))
+	}
 	err, p = catchErr(func() error { return store.UpdateNamespace(sub) })
 	if p != nil {
 		x.viol(c, mk("panic", "stage", "update"), "UpdateNamespace panicked: %v", p)
@@ -510,8 +514,12 @@ func (x *ctx) pipeline(c Case, name string, fields []string, key string, keyVali
 				"LoadNamespaces differs from the submitted configuration at %s", d)
 		}
 	}
-	// (3) the SyncNamespaces path: LoadOriginNamespaces + DecryptNamespaces
+	// (3) the SyncNamespaces path: LoadOriginNamespaces + DecryptNamespaces (same decoding and
+	// decryption code as (2); run for the vectors with <=1 deviation and for every name)
 	var org map[string]*models.Namespace
+	if !c.Wrong {
+		return true
+	}
 	err, p = catchErr(func() (e error) {
 		org, e = store.LoadOriginNamespaces()
 		if e != nil {
@@ -842,8 +850,15 @@ func layout(caseDir string) (storage string) {
 			ev.Fatalf("sandbox: %v", err)
 		}
 	}
+	os.WriteFile(filepath.Join(caseDir, "layout-ok"), []byte(marker+"layout-ok"), 0o644)
+	if n := len(snapshot(caseDir, storage)); n != layoutEntries {
+		ev.Fatalf("sandbox layout has %d entries, expected %d", n, layoutEntries)
+	}
 	return storage
 }
+
+// layoutEntries: files and directories of the sentinel layout (including the root and layout-ok).
+const layoutEntries = 27
 
 func (x *ctx) runLocal(c Case) {
 	r := x.r
@@ -851,13 +866,22 @@ func (x *ctx) runLocal(c Case) {
 	nc := nameClass(name)
 	dir := <-x.dirs
 	defer func() { x.dirs <- dir }()
+	// the sentinel layout of a worker directory is built once and rebuilt only after a case
+	// that changed it; the storage directory itself is emptied before every case
 	caseDir := filepath.Join(dir, "c")
-	storage := layout(caseDir)
+	storage := filepath.Join(caseDir, "l1", "l2", "store")
+	if _, err := os.Stat(filepath.Join(caseDir, "layout-ok")); err != nil {
+		layout(caseDir)
+	}
+	os.RemoveAll(storage)
 	lc, err := models.NewLocalClient(storage, c.Prefix)
 	if err != nil {
 		ev.Fatalf("NewLocalClient: %v", err)
 	}
 	before := snapshot(caseDir, storage)
+	if len(before) != layoutEntries {
+		ev.Fatalf("sandbox layout damaged before the case: %d entries", len(before))
+	}
 	key := validKeys[0]
 	feats := func(kind string, kv ...string) map[string]string {
 		m := map[string]string{"kind": kind, "entry": c.Entry, "prefix": c.Prefix, "nameclass": nc, "source": "local"}
@@ -1111,6 +1135,10 @@ func (x *ctx) runLocal(c Case) {
 		}
 	}
 	after := snapshot(caseDir, storage)
+	if len(snapDiff(before, after)) > 0 {
+		os.Remove(filepath.Join(caseDir, "layout-ok")) // rebuild for the next case
+		defer os.RemoveAll(caseDir)
+	}
 	for _, d := range snapDiff(before, after) {
 		i := strings.IndexByte(d, ':')
 		cls, _ := locate(storage, caseDir, filepath.Join(caseDir, d[i+1:]), lc.FileSuffix)
@@ -1137,6 +1165,19 @@ func (x *ctx) run(c Case) {
 	x.r.Add("evaluations", 1)
 }
 
+// coreString: the sub-alphabet used for 2-deviation vectors in the quick tier: every special
+// string and the plain strings of length 0, 1, 15, 16, 17, 32.
+func coreString(s string) bool {
+	if s != strings.Repeat("a", len(s)) {
+		return true
+	}
+	switch len(s) {
+	case 0, 1, 15, 16, 17, 32:
+		return true
+	}
+	return false
+}
+
 func genCred(r *ev.Run, emit func(Case)) {
 	alpha := credAlphabet()
 	gen := func(shape, k int, keys []string, local bool) {
@@ -1147,18 +1188,22 @@ func genCred(r *ev.Run, emit func(Case)) {
 		}
 		enum.Deviations(dims, k, func(idx []int) {
 			f := make([]string, len(def))
-			nd := 0
+			nd, core := 0, true
 			for i, v := range idx {
 				if v == 0 {
 					f[i] = q(def[i])
 				} else {
 					f[i] = q(alpha[v-1])
 					nd++
+					core = core && coreString(alpha[v-1])
 				}
 			}
+			if nd >= 2 && r.Quick() && !core {
+				return // quick tier: vectors with 2 deviations over the core sub-alphabet only
+			}
 			for ki, key := range keys {
-				if nd >= 2 && ki > 0 && r.Quick() {
-					break // quick tier: vectors with >=2 deviations under the first key only
+				if nd >= 2 && ki > 0 && (r.Quick() || nd >= 3) {
+					break // 2 deviations in the quick tier / 3 deviations: under the first key only
 				}
 				emit(Case{Part: "cred", Shape: shape, KeyQ: q(key), Fields: f, Wrong: nd <= 1, Local: local && nd <= 1})
 			}
@@ -1219,7 +1264,7 @@ func (x *ctx) stream(part string, gen func(emit func(Case))) bool {
 			stopped = true
 			return
 		}
-		if n%9973 == 1 || n == 0 {
+		if n == 0 || n == 37 {
 			x.r.Sample(c)
 		}
 		n++
@@ -1233,6 +1278,7 @@ func (x *ctx) stream(part string, gen func(emit func(Case))) bool {
 
 func main() {
 	gx.Quiet()
+	debug.SetGCPercent(400)
 	r := ev.Start("C33", "exploration")
 	build := os.Getenv("VERIF_BUILD_DIR")
 	if build == "" {
@@ -1267,7 +1313,7 @@ func main() {
 	r.Assume("documented normalisation = strings.TrimSpace of user name/password/user namespace, default user namespace, nil allowed_session_variables -> {}, is_encrypt = true")
 	r.Assume("reads of sentinel files are detected through returned data (a unique marker), writes/deletes through a before/after snapshot of the sandbox tree; file operations whose helper path would leave the sandbox are reported from the helper result and not executed")
 	r.Assume("LocalClient.UpdateWithTTL is not driven (free-running timer goroutine); it uses the same path helper as Update")
-	r.Set("bounds", fmt.Sprintf("cred deviations: 1 user+1 slice <=%d, 2 users+2 slices <=%d, over %d strings x %d valid keys (quick: vectors with 2 deviations under the first key only) (+%d invalid); %d names x %d prefixes x 3 entry points; ciphertext lengths 0..48, padding bytes 0..255 on 1..3 blocks",
+	r.Set("bounds", fmt.Sprintf("cred deviations: 1 user+1 slice <=%d, 2 users+2 slices <=%d, over %d strings x %d valid keys (quick: 2-deviation vectors over the core sub-alphabet under the first key; thorough: 3-deviation vectors under the first key) (+%d invalid); %d names x %d prefixes x 3 entry points; ciphertext lengths 0..48, padding bytes 0..255 on 1..3 blocks",
 		r.Pick(2, 3), r.Pick(1, 2), len(credAlphabet()), len(validKeys), len(invalidKeys), len(nameAlphabet()), len(prefixes)))
 
 	parts := []struct {
@@ -1275,7 +1321,13 @@ func main() {
 		gen  func(emit func(Case))
 	}{{"local", genLocal}, {"name", genName}, {"dec", genDec}, {"cred", func(e func(Case)) { genCred(r, e) }}}
 	for _, p := range parts {
-		if !x.stream(p.name, p.gen) {
+		t0 := time.Now()
+		defer func(n string) {}(p.name)
+		ok := x.stream(p.name, p.gen)
+		if os.Getenv("VERIF_DEBUG") != "" {
+			fmt.Printf("DEBUG part %s took %.1fs\n", p.name, time.Since(t0).Seconds())
+		}
+		if !ok {
 			r.Capped(fmt.Sprintf("time budget ended inside part %s (cases are generated fewest-deviations first); earlier parts complete", p.name))
 			break
 		}
